@@ -93,11 +93,16 @@ def to_case(name, scen, prog, sched, variant, mode="mem"):
                 out.append("run:fa")
         else:
             out.append(s)
-    return {"name": name, "mode": mode, "setup": setup, "procs": procs, "schedule": out}
+    case = {"name": name, "mode": mode, "setup": setup, "procs": procs, "schedule": out}
+    if scen.get("EnterGate"):
+        # the code a client runs before it asks for the bucket mutex is a step of its own
+        case["gates"] = ["op.start", "txn.enter", "post.before", "update.read.done", "subdoc.read.done", "wuwx.read.done",
+                         "feed.backfill.done", "feed.registered", "feed.deliver", "feed.term", "feed.exit"]
+    return case
 
 
 SCENARIOS = {
-    "race":   {"HasFeed": False, "FeedBackfill": False, "Stops": 0, "FeedInit": "start"},
+    "race":   {"HasFeed": False, "FeedBackfill": False, "Stops": 0, "FeedInit": "start", "EnterGate": True},
     "order":  {"HasFeed": True, "FeedBackfill": False, "Stops": 0, "FeedInit": "running"},
     "join":   {"HasFeed": True, "FeedBackfill": True, "Stops": 0, "FeedInit": "start"},
     "resume": {"HasFeed": True, "FeedBackfill": True, "Stops": 1, "FeedInit": "start"},
@@ -149,7 +154,7 @@ def run(tier, seed, vh, only_paths=None, mode=None):
         res["mc"] = run_mc(run)
         gen_states = 0
         counts = {}
-        for scen, limit in (("race", None), ("order", None), ("join", 120 if tier == "quick" else 3000),
+        for scen, limit in (("race", 300 if tier == "quick" else None), ("order", None), ("join", 120 if tier == "quick" else 3000),
                             ("resume", 120 if tier == "quick" else 3000), ("dumpstop", None)):
             scheds, distinct = gen_schedules(run, scen)
             gen_states += distinct
